@@ -2,7 +2,15 @@
 //! combinators: `blocking_flush` of a tree is the conjunction of its leaves' answers, every
 //! leaf is flushed exactly once in order, and the budgets handed out fit the caller's timeout.
 //!
+//! The case's `entry` says how the request reaches the tree (spec/Flush.tla, Entries): the
+//! tree itself, behind a Runtime (built, Default, Setup::init_runtime / map_emitter /
+//! and_emit_to), installed in a slot of its own (Init::blocking_flush, Init::get,
+//! AmbientSlot::get, InitGuard dropped normally or by an unwinding panic), a slot that was never
+//! initialised or was taken before, and the process-global shared slot (emit::blocking_flush,
+//! guard) - the latter in one child process per case.
+//!
 //! usage: c07_flushtree <cases.ndjson> <report.json>
+//!        c07_flushtree child <case json>      (prints the observation)
 use std::sync::{Arc, Mutex};
 use std::time::Duration;
 
@@ -61,50 +69,218 @@ fn build(t: &Value, answer: &Value, log: &Log) -> Dyn {
     }
 }
 
-fn main() {
-    let args: Vec<String> = std::env::args().collect();
-    quiet_panics();
-    let mut rep = Report::new();
-    for_each_case(&args[1], |_, case| {
-        rep.cases += 1;
-        let timeout = Duration::from_millis(case["timeout"].as_u64().unwrap());
-        let want_result = case["result"].as_bool().unwrap();
-        let want_calls: Vec<(u64, u128)> = case["calls"].as_array().unwrap().iter()
-            .map(|c| (c["leaf"].as_u64().unwrap(), c["timeout"].as_u64().unwrap() as u128)).collect();
-        // three entry points: the tree itself, the tree behind a Runtime, the tree type-erased once more
-        for entry in ["direct", "runtime", "erased"] {
-            let log: Log = Default::default();
-            let tree = build(&case["tree"], &case["answer"], &log);
-            let r = catch(|| match entry {
-                "direct" => tree.blocking_flush(timeout),
-                "runtime" => emit::runtime::Runtime::build(tree, emit::Empty, emit::Empty, emit::Empty, emit::Empty).blocking_flush(timeout),
-                _ => (&tree as &(dyn ErasedEmitter + Send + Sync)).blocking_flush(timeout),
-            });
-            rep.checks += 1;
-            let got_calls = log.lock().unwrap().clone();
-            match r {
-                Err(p) => rep.mismatch("panic", case, json!({"entry": entry, "panic": p})),
-                Ok(got) => {
-                    // the statement: conjunction of the leaves' answers, every leaf once (in order)
-                    if got != want_result {
-                        rep.mismatch("flush result is not the conjunction of the destinations' results", case, json!({"entry": entry, "got": got, "want": want_result}));
-                    }
-                    let got_leaves: Vec<u64> = got_calls.iter().map(|c| c.0).collect();
-                    let want_leaves: Vec<u64> = want_calls.iter().map(|c| c.0).collect();
-                    if got_leaves != want_leaves {
-                        rep.mismatch("destinations flushed differ from every-destination-exactly-once", case, json!({"entry": entry, "got": got_leaves, "want": want_leaves}));
-                    }
-                    let sum: u128 = got_calls.iter().map(|c| c.1).sum();
-                    if sum > timeout.as_millis() {
-                        rep.mismatch("time budgets handed to the destinations exceed the caller's timeout", case, json!({"entry": entry, "got": got_calls, "timeout": timeout.as_millis() as u64}));
-                    }
-                    if got_calls != want_calls {
-                        // exact budgets are the design's (halving), not the statement's
-                        rep.extra.insert("model_budget_differs".into(), json!(true));
-                    }
+/// payload of the harness's own panic that unwinds through a guard's scope
+struct Unwind;
+
+struct Obs {
+    /// what the flush returned (None: the entry has no result to look at)
+    result: Option<bool>,
+    /// a failure to set the scene that is itself an observation of the code under test
+    scene: Option<&'static str>,
+}
+
+/// `f` creates its guard and then panics with `Unwind` while the guard is alive; a panic of the
+/// code under test (any other payload) propagates.
+fn unwind_through(f: impl FnOnce()) {
+    match std::panic::catch_unwind(std::panic::AssertUnwindSafe(f)) {
+        Err(e) if e.is::<Unwind>() => {}
+        Err(e) => std::panic::resume_unwind(e),
+        Ok(()) => tool_error("the scope of a guard was left without unwinding"),
+    }
+}
+
+/// Drive one entry of the real code; panics of the code under test propagate to the caller.
+fn drive(entry: &str, tree: Dyn, timeout: Duration) -> Obs {
+    use emit::runtime::{AmbientSlot, Runtime};
+    let seen = |r: bool| Obs { result: Some(r), scene: None };
+    let unseen = || Obs { result: None, scene: None };
+    match entry {
+        "direct" => seen(tree.blocking_flush(timeout)),
+        "erased" => seen((&tree as &(dyn ErasedEmitter + Send + Sync)).blocking_flush(timeout)),
+        "runtime" => seen(Runtime::build(tree, emit::Empty, emit::Empty, emit::Empty, emit::Empty).blocking_flush(timeout)),
+        "default_rt" => seen(Runtime::default().with_emitter(tree).blocking_flush(timeout)),
+        "init_runtime" => seen(emit::setup().emit_to(tree).init_runtime().blocking_flush(timeout)),
+        "map_emitter" => seen(emit::setup().map_emitter(move |_default| tree).init_runtime().blocking_flush(timeout)),
+        "and_emit_to" => seen(emit::setup().and_emit_to(tree).init_runtime().blocking_flush(timeout)),
+        "init_flush" | "init_get" | "slot_get" | "guard_drop" | "guard_unwind" => {
+            let slot = AmbientSlot::new();
+            let Some(init) = emit::setup().emit_to(tree).try_init_slot(&slot) else {
+                return Obs { result: None, scene: Some("initialising a fresh slot reported failure") };
+            };
+            match entry {
+                "init_flush" => seen(init.blocking_flush(timeout)),
+                "init_get" => seen(Emitter::blocking_flush(init.get(), timeout)),
+                "slot_get" => seen(Emitter::blocking_flush(slot.get(), timeout)),
+                "guard_drop" => {
+                    let guard = init.flush_on_drop(timeout);
+                    let _ = guard.inner().get();
+                    drop(guard);
+                    unseen()
+                }
+                _ => {
+                    unwind_through(|| {
+                        let _guard = init.flush_on_drop(timeout);
+                        std::panic::panic_any(Unwind)
+                    });
+                    unseen()
                 }
             }
         }
+        "uninit" => {
+            drop(tree);
+            let slot = AmbientSlot::new();
+            seen(Emitter::blocking_flush(slot.get(), timeout))
+        }
+        "lost" => {
+            let slot = AmbientSlot::new();
+            if emit::setup().try_init_slot(&slot).is_none() {
+                return Obs { result: None, scene: Some("initialising a fresh slot reported failure") };
+            }
+            // the attempt that loses; whatever it hands back is guarded the usual way
+            let guard = emit::setup().emit_to(tree).try_init_slot(&slot).map(|init| init.flush_on_drop(timeout));
+            let won = guard.is_some();
+            drop(guard);
+            if won {
+                return Obs { result: None, scene: Some("a second initialisation of the slot reported success") };
+            }
+            seen(Emitter::blocking_flush(slot.get(), timeout))
+        }
+        // the process-global slot: this process serves one case
+        "shared" => {
+            let _init = emit::setup().emit_to(tree).init();
+            seen(emit::blocking_flush(timeout))
+        }
+        "shared_guard" => {
+            unwind_through(|| {
+                let _guard = emit::setup().emit_to(tree).init().flush_on_drop(timeout);
+                std::panic::panic_any(Unwind)
+            });
+            unseen()
+        }
+        "shared_uninit" => {
+            drop(tree);
+            seen(emit::blocking_flush(timeout))
+        }
+        e => tool_error(&format!("unknown entry {e}")),
+    }
+}
+
+/// (panic, result, scene, calls) of one case run in this process
+fn observe(case: &Value) -> (Option<String>, Option<bool>, Option<&'static str>, Vec<(u64, u128)>) {
+    let timeout = Duration::from_millis(case["timeout"].as_u64().unwrap());
+    let entry = case["entry"].as_str().unwrap();
+    let log: Log = Default::default();
+    let tree = build(&case["tree"], &case["answer"], &log);
+    let r = catch(|| drive(entry, tree, timeout));
+    let calls = log.lock().unwrap().clone();
+    match r {
+        Err(p) => (Some(p), None, None, calls),
+        Ok(o) => (None, o.result, o.scene, calls),
+    }
+}
+
+fn in_child(entry: &str) -> bool {
+    entry.starts_with("shared")
+}
+
+fn observe_in_child(case: &Value) -> (Option<String>, Option<bool>, Option<String>, Vec<(u64, u128)>) {
+    let exe = std::env::current_exe().unwrap();
+    let o = std::process::Command::new(exe)
+        .args(["child", &case.to_string()])
+        .output()
+        .unwrap_or_else(|e| tool_error(&format!("spawn child: {e}")));
+    if !o.status.success() {
+        tool_error(&format!("child failed: {}", String::from_utf8_lossy(&o.stderr)));
+    }
+    let v: Value = serde_json::from_slice(&o.stdout).unwrap_or_else(|e| tool_error(&format!("child output: {e}")));
+    (
+        v["panic"].as_str().map(|s| s.to_string()),
+        v["result"].as_bool(),
+        v["scene"].as_str().map(|s| s.to_string()),
+        v["calls"].as_array().unwrap().iter().map(|c| (c[0].as_u64().unwrap(), c[1].as_u64().unwrap() as u128)).collect(),
+    )
+}
+
+fn main() {
+    let args: Vec<String> = std::env::args().collect();
+    quiet_panics();
+    if args[1] == "child" {
+        let case: Value = serde_json::from_str(&args[2]).unwrap_or_else(|e| tool_error(&format!("case: {e}")));
+        let (panic, result, scene, calls) = observe(&case);
+        let calls: Vec<Value> = calls.iter().map(|c| json!([c.0, c.1 as u64])).collect();
+        println!("{}", json!({"panic": panic, "result": result, "scene": scene, "calls": calls}));
+        return;
+    }
+    // the cases of the process-global entries run in child processes, a few at a time
+    let mut cases = Vec::new();
+    for_each_case(&args[1], |_, case| cases.push(case.clone()));
+    let next = std::sync::atomic::AtomicUsize::new(0);
+    let children: Mutex<std::collections::HashMap<usize, _>> = Mutex::new(Default::default());
+    std::thread::scope(|s| {
+        for _ in 0..4 {
+            s.spawn(|| loop {
+                let k = next.fetch_add(1, std::sync::atomic::Ordering::SeqCst);
+                if k >= cases.len() {
+                    break;
+                }
+                if in_child(cases[k]["entry"].as_str().unwrap()) {
+                    let o = observe_in_child(&cases[k]);
+                    children.lock().unwrap().insert(k, o);
+                }
+            });
+        }
     });
+    let mut children = children.into_inner().unwrap();
+    let mut rep = Report::new();
+    let mut per_entry: std::collections::BTreeMap<String, u64> = Default::default();
+    for (k, case) in cases.iter().enumerate() {
+        rep.cases += 1;
+        rep.checks += 1;
+        let entry = case["entry"].as_str().unwrap();
+        *per_entry.entry(entry.to_string()).or_default() += 1;
+        let timeout = Duration::from_millis(case["timeout"].as_u64().unwrap());
+        let want_result = case["result"].as_bool().unwrap();
+        let result_seen = case["seen"].as_bool().unwrap();
+        let want_calls: Vec<(u64, u128)> = case["calls"].as_array().unwrap().iter()
+            .map(|c| (c["leaf"].as_u64().unwrap(), c["timeout"].as_u64().unwrap() as u128)).collect();
+        let (panic, got, scene, got_calls) = if in_child(entry) {
+            children.remove(&k).unwrap()
+        } else {
+            let (p, g, s, c) = observe(case);
+            (p, g, s.map(|s| s.to_string()), c)
+        };
+        if let Some(p) = panic {
+            rep.mismatch("panic", case, json!({"entry": entry, "panic": p}));
+            continue;
+        }
+        if let Some(s) = scene {
+            rep.mismatch(&s, case, json!({"entry": entry}));
+            continue;
+        }
+        if got.is_some() != result_seen {
+            tool_error(&format!("entry {entry}: result observable in the harness {:?}, in the specification {result_seen}", got));
+        }
+        // the statement: conjunction of the answers of the destinations reached, every one of them once (in order)
+        if let Some(got) = got {
+            if got != want_result {
+                rep.mismatch("flush result is not the conjunction of the destinations' results", case, json!({"entry": entry, "got": got, "want": want_result}));
+            }
+        }
+        let got_leaves: Vec<u64> = got_calls.iter().map(|c| c.0).collect();
+        let want_leaves: Vec<u64> = want_calls.iter().map(|c| c.0).collect();
+        if got_leaves != want_leaves {
+            rep.mismatch("destinations flushed differ from every-destination-exactly-once", case, json!({"entry": entry, "got": got_leaves, "want": want_leaves}));
+        }
+        let sum: u128 = got_calls.iter().map(|c| c.1).sum();
+        if sum > timeout.as_millis() {
+            rep.mismatch("time budgets handed to the destinations exceed the caller's timeout", case, json!({"entry": entry, "got": got_calls.iter().map(|c| json!([c.0, c.1 as u64])).collect::<Vec<_>>(), "timeout": timeout.as_millis() as u64}));
+        }
+        if got_calls != want_calls {
+            // exact budgets are the design's (halving), not the statement's
+            rep.extra.insert("model_budget_differs".into(), json!(true));
+        }
+    }
+    // vacuity guard: every entry the harness knows must have been driven
+    rep.extra.insert("cases_per_entry".into(), json!(per_entry));
     rep.write(&args[2]);
 }
